@@ -1,4 +1,5 @@
 import NLE.Proofs.LifeInv
+import NLE.Gen.Shape
 /-!
 # C08 — promotion and demotion callbacks mirror leadership exactly
 
@@ -84,5 +85,17 @@ theorem mirror_at_quiescent_points {x : Inst} (inv : LInv x) (hcb : x.callbacks 
   have hpn : o2n x.promoOwed = 0 := by simp [o2n]; simpa using hpo
   rw [hobs.2.2]
   cases hf : x.flag <;> simp [hf, b2n] at hb ⊢ <;> omega
+
+/-- AST facts: `becomeFollower` is called only by `stepDown`, the initial acquisition and an exhausted round (both while
+    not leading); `OnDemote` is invoked only by `stepDown`, `Stop` and `StopWithContext`; every demotion cause goes
+    through `stepDown`; a promotion is refused while the instance already leads. -/
+theorem shape :
+    Gen.becomeFollowerCallers = ["kvElection.Start", "kvElection.attemptAcquireWithRetry", "kvElection.stepDown"] ∧
+    Gen.onDemoteCallers = ["kvElection.Stop", "kvElection.StopWithContext", "kvElection.stepDown"] ∧
+    Gen.stepDownCallers = ["disconnectHandler.handleGracePeriodExpired", "kvElection.handleHealthCheckFailure",
+      "kvElection.handleHeartbeatFailure", "kvElection.handleReconnectVerificationFailed", "kvElection.handleValidationFailure",
+      "kvElection.handleWatchEvent"] ∧
+    Gen.becomeLeaderRefusesWhenLeading = true ∧ Gen.roundChecksLeader = true := by decide
+
 
 end NLE.Theorems.C08
